@@ -130,8 +130,8 @@ def _mk(inp, selfid, members, clock, dyn):
     return o, tr, cons
 
 
-@obligation('S12', props=('C09', 'C01', 'C10', 'C06', 'C18'), quick=[dict(n=2), dict(n=3)], thorough=[dict(n=2), dict(n=3), dict(n=4)], stubs=_STUBS,
-            bounds='log of n<=4 entries (first index 1..3), any applied/commit index, symbolic user state (int, list of 2, two consumers), dynamic membership on/off, commands applied between the snapshot and the trim')
+@obligation('S12', props=('C09', 'C01', 'C10', 'C06', 'C18'), quick=[dict(n=2), dict(n=3)], thorough=[dict(n=2), dict(n=3), dict(n=4), dict(n=5)], stubs=_STUBS,
+            bounds='log of n<=5 entries (first index 1..3), any applied/commit index, symbolic user state (int, list of 2, two consumers), dynamic membership on/off, commands applied between the snapshot and the trim')
 def S12(inp, n):
     """compaction captures the state at the applied position: the image holds the user attributes and every consumer as
     they were when it was taken (later applies do not leak in), the entry at the applied index and its predecessor, the member
@@ -208,7 +208,7 @@ class HookTransport(so.RecTransport):
 
 
 @obligation('S4', props=('C09', 'C05'), quick=[dict(chunks=3, event='none'), dict(chunks=3, event='disconnect'), dict(chunks=3, event='newer')],
-            thorough=[dict(chunks=6, event=e) for e in ('none', 'disconnect', 'newer')], stubs=_STUBS + ('snapshot images are blobs of symbolic length',),
+            thorough=[dict(chunks=c_, event=e) for c_ in (6, 8) for e in ('none', 'disconnect', 'newer')], stubs=_STUBS + ('snapshot images are blobs of symbolic length',),
             bounds='image length 1..200000 and chunk size 1..70000 symbolic with at most `chunks` data chunks (chunk size larger than the image included); a disconnect or a newer completed snapshot after a symbolic number of sent chunks')
 def S4(inp, chunks, event):
     """chunked snapshot transfer: whatever the chunk size and wherever the transfer is interrupted (disconnect and restart,
@@ -401,7 +401,7 @@ def S6(inp):
     return Res(cl, nontrivial=name != 'running', obs=lambda: dict(wait=name, log=[e[1] for e in log], pid=ser._Serializer__pid))
 
 
-@obligation('RI', props=('C01', 'C09', 'C04'), quick=[dict(n=2), dict(n=3)], thorough=[dict(n=2), dict(n=3), dict(n=4)], stubs=_STUBS,
+@obligation('RI', props=('C01', 'C09', 'C04'), quick=[dict(n=2), dict(n=3)], thorough=[dict(n=2), dict(n=3), dict(n=4), dict(n=5)], stubs=_STUBS,
             bounds='follower in any well-formed state with n<=4 entries; the last chunk of a snapshot taken at any index d >= the follower commit index (terms symbolic), leader commit any value >= d; earlier chunks present or missing')
 def RI(inp, n):
     """snapshot installation on a follower: only a complete transfer is installed; then the log is exactly the two snapshot
